@@ -27,12 +27,23 @@ def make_app(pieces, declared, as_generator):
         hdrs = [("Content-Type", "text/plain"), ("X-Req", str(i))]
         if declared[i - 1] >= 0:
             hdrs.append(("Content-Length", str(declared[i - 1])))
-        start_response("20%d OK" % (i % 3), hdrs)
         full = body_bytes(i, sum(pieces[i - 1]))
         out, pos = [], 0
         for k in pieces[i - 1]:
             out.append(full[pos:pos + k])
             pos += k
+        if as_generator == "write":          # the legacy write() callable that start_response() returns
+            write = start_response("20%d OK" % (i % 3), hdrs)
+            for x in out:
+                write(x)
+            return []
+        start_response("20%d OK" % (i % 3), hdrs)
+        if as_generator == "genret":         # a generator that hands over its last piece as its return value (hio writes it)
+            def gen2():
+                for x in out[:-1]:
+                    yield x
+                return out[-1] if out else b""
+            return gen2()
         if as_generator:
             def gen():
                 for x in out:
@@ -111,7 +122,7 @@ def execute(rec, pipelined, as_generator):
         return "service() raised %s: %s" % (type(ex).__name__, ex)
     got, left = split_responses(bytes(data), len(reqs))
     desc = "requests %s answered by %s (%s, app returns a %s)" % (
-        [r["r"] for r in reqs], [r["a"] for r in reqs], "pipelined" if pipelined else "one at a time", "generator" if as_generator else "list")
+        [r["r"] for r in reqs], [r["a"] for r in reqs], "pipelined" if pipelined else "one at a time", {False: "list", True: "generator", "write": "[] after write() calls", "genret": "generator with a return value"}[as_generator])
     for k, o in enumerate(out):
         if k >= len(got):
             return "%s: response %d missing (received %r)" % (desc, k + 1, bytes(data)[-200:])
@@ -156,13 +167,13 @@ def run(ctx):
             continue
         seen.add(key)
         for pipelined in (True, False):
-            for as_gen in (False, True):
+            for as_gen in (False, True, "write", "genret"):
                 ctx.case((key, pipelined, as_gen), {"requests": key, "expected": rec["out"]} if i == 40 and pipelined and not as_gen else None)
                 bad = execute(rec, pipelined, as_gen)
                 if bad:
                     ctx.violation(bad, {"rec": rec, "pipelined": pipelined, "as_generator": as_gen})
     ctx.exhaustive = True
-    return ctx.finish(rule="one case per (request sequence x application behaviours, pipelined | one at a time, list | generator body)",
+    return ctx.finish(rule="one case per (request sequence x application behaviours, pipelined | one at a time, list | generator | write() calls | generator with return value)",
                       assumptions=["an application that declares a Content-Length larger than its body is outside the bounds (its response "
                                    "cannot be framed by anybody)", "HEAD requests and 1xx/204/304 statuses are not in the alphabet"])
 
